@@ -107,6 +107,8 @@ where
                         log::debug!("{}: Thread started.", t);
                         let mut pending = VecDeque::new();
                         loop {
+                            #[cfg(feature = "getong_stateright_verif")]
+                            crate::verif::yield_point("dfs:loop_top");
                             // Step 1: Do work.
                             if pending.is_empty() {
                                 pending = {
@@ -158,6 +160,8 @@ where
                             }
 
                             // Step 2: Share work.
+                            #[cfg(feature = "getong_stateright_verif")]
+                            crate::verif::yield_point("dfs:after_block");
                             if pending.len() > 1 && thread_count > 1 {
                                 job_broker.split_and_push(&mut pending);
                             }
@@ -191,6 +195,8 @@ where
         global_max_depth: &AtomicUsize,
         symmetry: Option<fn(&M::State) -> M::State>,
     ) {
+        #[cfg(feature = "getong_stateright_verif")]
+        let mut max_count = crate::verif::block_size(max_count);
         let properties = model.properties();
 
         let mut current_max_depth = global_max_depth.load(Ordering::Relaxed);
